@@ -1,4 +1,5 @@
 """C20 Session activation authenticates the user exactly as configured."""
+import json
 from checks.session_common import *
 
 LEVEL = "model_checking"
@@ -6,23 +7,36 @@ LEVEL = "model_checking"
 
 def run(ctx):
     q = ctx.quick
+    rp = json.load(open(ctx.replay)).get("engine") if ctx.replay else None
+    if rp in (None, "auth"):
+        table(ctx, q)
+    tnote = dict(ctx.notes.get("drift", {}))
+    if rp in (None, "session"):
+        histories(ctx, q)
+    ctx.cov["rule"] = TABLE_RULE + "; " + HIST_RULE
+    ctx.notes.setdefault("drift", {}).update(tnote)
+    ctx.cov["exhaustive"] = rp is None
+    ctx.assumptions += ASSUMPTIONS
+
+
+ENV = dict(VERIF_PKI_TAG="c20")
+
+
+def table(ctx, q):
     # the decision table (function-like)
     r = run_tlc(ctx.sub("mc_dev_table"), "MCAuthTable", dict(DevStaleNonce=True), spec="Spec", invariants=["DesignOK"], workers=2)
     if r.error or r.violated != "DesignOK":
         raise ToolError("deviation table no longer violates DesignOK: %s" % (r.error or r.violated))
     ctx.cov["tlc_runs"].append({"name": "dev_table_stale_nonce", "violated": r.violated, "wall_s": round(r.wall, 1)})
-    env = dict(VERIF_PKI_TAG="c20", VERIF_SEED=ctx.seed)
+    env = dict(ENV, VERIF_SEED=ctx.seed)
     fn_pipeline(ctx, "C20", "auth", "GenAuthTable", "TraceAuthTable", consts=dict(DevStaleNonce=False), trace_consts=dict(DevStaleNonce=False),
                 crate="h_session", env=env, limit=700 if q else None, name="table",
                 expected=lambda c: c.get("exp"), observed=lambda o: o.get("r", {}).get("ok"),
                 nontrivial=lambda c: c["c"]["kind"] in ("user", "x509"))
-    table_rule = ("table: TLC enumerates endpoint configuration {anonymous only, user/password only, x509 only, mixed, none} x {policy None, "
-                  "Basic256Sha256 SignAndEncrypt} x identity token {anonymous, user name, x509, issued, null, not a token, undecodable} x "
-                  "policy id right/wrong x user {configured, empty password, configured for another endpoint, unknown, an x509 user} x "
-                  "password right/wrong/empty x {plain, encrypted for the current nonce, for the earlier nonce, unknown algorithm, wrong "
-                  "padding, other valid algorithm} x certificate {configured, other endpoint, unconfigured} x signature {ok, corrupt, other "
-                  "key, over the earlier nonce, null}; each point = one real ActivateSession on a fresh session of the endpoint")
-    tnote = dict(ctx.notes.get("drift", {}))
+
+
+def histories(ctx, q):
+    env = dict(ENV, VERIF_SEED=ctx.seed)
     # repeated activations that replay earlier tokens (histories)
     hist = consts(NConns=1, NSlots=1, Acts={"Create", "Activate", "Service"}, ActKinds={"anon", "user", "userenc", "x509"}, SvcKinds={"Write"},
                   ExtraToks=set(), MaxDepth=5 if q else 6)
@@ -33,7 +47,7 @@ def run(ctx):
     # Basic256Sha256 endpoint
     both = lambda h, c, nm: to_cases(h, dict(c, Secure=False), nm + "_none") + to_cases(h, dict(c, Secure=True), nm + "_enc")
     gens = []
-    c = dict(hist, MaxDepth=4 if q else 6)
+    c = dict(hist, MaxDepth=4 if q else 5)
     h, r = ctx.gen("replay", "GenSession", c)
     gens.append(both(take(h, 600 if q else 20000, ctx.seed), c, "replay"))
     c = dict(wide, MaxDepth=10)
@@ -47,24 +61,29 @@ def run(ctx):
         for s in c["steps"]:
             if s["ev"] == "Activate" and s["kind"] in ("userenc", "x509") and s["g"] < gen.get(s["tok"], 0):
                 return True
-            if s["ev"] == "Activate" and s["class"] == "ok":
+            if s["ev"] == "Activate" and s.get("class") == "ok":
                 gen[s["tok"]] = gen.get(s["tok"], 0) + 1
         return False
 
     pipeline(ctx, "C20", gens, nontrivial, "", env=env)
-    ctx.cov["rule"] = (table_rule + "; histories: every sequence of CreateSession / ActivateSession (anonymous, plain password, password "
-                       "encrypted for the nonce of any generation so far, x509 signature over the nonce of any generation so far; right and "
-                       "wrong credentials; replays are byte-identical) / a service, exhaustive to the depth bound on a policy None and a "
-                       "Basic256Sha256 endpoint, plus random simulation to depth 10 with two sessions, channel changes, close and timeout; "
-                       "non-trivial = (table) a user name or x509 token, (histories) an activation with a token made for an earlier nonce")
-    d = ctx.notes.setdefault("drift", {})
-    d.update(tnote)
-    ctx.cov["exhaustive"] = True
-    ctx.assumptions += ["ActivateSession requests are dispatched decoded through MessageHandler::handle_message (cfg-guarded hook) after a real "
-                        "HELLO/OpenSecureChannel on policy None; the Basic256Sha256 endpoint is selected by setting policy and mode of the "
-                        "server side secure channel, the client signature is made with the key of the client certificate of CreateSession",
-                        "openssl RSA (OAEP / PKCS#1 v1.5 encryption, RSA-SHA1 signatures) is the trusted primitive used to build the tokens",
-                        "the x509 user token signature is made under the security policy the endpoint description advertises for the token "
-                        "policy (Basic128Rsa15)",
-                        "cases of the table that the statement leaves open (null identity token on an anonymous endpoint, password encrypted "
-                        "with another valid algorithm) are not judged"]
+
+
+TABLE_RULE = ("table: TLC enumerates endpoint configuration {anonymous only, user/password only, x509 only, mixed, none} x {policy None, "
+              "Basic256Sha256 SignAndEncrypt} x identity token {anonymous, user name, x509, issued, null, not a token, undecodable} x "
+              "policy id right/wrong x user {configured, empty password, configured for another endpoint, unknown, an x509 user} x "
+              "password right/wrong/empty x {plain, encrypted for the current nonce, for the earlier nonce, unknown algorithm, wrong "
+              "padding, other valid algorithm} x certificate {configured, other endpoint, unconfigured} x signature {ok, corrupt, other "
+              "key, over the earlier nonce, null}; each point = one real ActivateSession on a fresh session of the endpoint")
+HIST_RULE = ("histories: every sequence of CreateSession / ActivateSession (anonymous, plain password, password encrypted for the nonce "
+             "of any generation so far, x509 signature over the nonce of any generation so far; right and wrong credentials; replays are "
+             "byte-identical) / a service, exhaustive to the depth bound, each on a policy None and a Basic256Sha256 endpoint, plus random "
+             "simulation to depth 10 with two sessions, two connections, channel changes, close and timeout; non-trivial = (table) a user "
+             "name or x509 token, (histories) an activation with a token made for an earlier nonce")
+ASSUMPTIONS = ["ActivateSession requests are dispatched decoded through MessageHandler::handle_message (cfg-guarded hook) after a real "
+               "HELLO/OpenSecureChannel on policy None; the Basic256Sha256 endpoint is selected by setting policy and mode of the "
+               "server side secure channel, the client signature is made with the key of the client certificate of CreateSession",
+               "openssl RSA (OAEP / PKCS#1 v1.5 encryption, RSA-SHA1 signatures) is the trusted primitive used to build the tokens",
+               "the x509 user token signature is made under the security policy the endpoint description advertises for the token "
+               "policy (Basic128Rsa15)",
+               "cases of the table that the statement leaves open (null identity token on an anonymous endpoint, password encrypted "
+               "with another valid algorithm) are not judged"]
